@@ -50,6 +50,7 @@ type Profile struct {
 	PForward        int      // percent of follow-up messages after a registration that use that registration (forward reference)
 	PMultiTarget    int      // percent of txs starting with a storage purchase that go on purchasing for other targets (neighbours, nonexistent ones)
 	PQuorumConflict int      // percent of histories with the motif: orders raised, one signer accepts and another rejects them, and a steered enterprise parameter change is proposed while they are undecided
+	HugeFeeParams   bool     // valid registry parameter patches may carry a record fee of 2^63-1, 2^63 or 2^64-1 (in a denomination the accounts are rich in)
 	PGovSendSwitch  int      // percent of governance blocks that carry the bank transfer switch for one denomination (mostly off, sometimes on again) instead of a parameter change
 	PGovRaise       int      // percent of governance blocks that carry, instead of a parameter change, a purchase order raised by the governance account itself (whitelisted first)
 	EntSteerBoth    bool     // valid enterprise parameter patches are always steered, preferably so that both quorums hold at once
@@ -340,6 +341,12 @@ func GenOp(t *rapid.T, p *Profile, kind string, nAcc int) Op {
 			op.M = rapid.Uint64Range(60, 5000).Draw(t, "durLit")
 		}
 		op.Amt = pick(t, []string{"0", "0", "1", "7", "-1", "-2", "-4"}, "rem") // deposit = rate x duration + remainder (just above / just below a whole number of seconds)
+		if p.LongTime && oneIn(t, 14, "zeroAtTimeMax") {
+			// the stream runs dry around the last instant a protobuf timestamp can hold (year 9999): rate 1-3, duration
+			// chosen at build time, a few hours before or after that instant
+			op.Rule = 6
+			op.M = uint64(uniRange(t, 0, 10, "timeMaxOffset"))
+		}
 		if oneIn(t, 10, "rawRecv") {
 			op.Peer = nAcc + uniRange(t, 0, 5, "rawPeer")
 		}
@@ -490,8 +497,11 @@ func GenParams(t *rapid.T, p *Profile, kind string, nAcc int) *ParamsPatch {
 			default:
 				pp.Denom = pick(t, denomsInvalid, "badDenom")
 			}
-		} else if !p.ValidParams && oneIn(t, 7, "hugeFee") {
+		} else if (!p.ValidParams || p.HugeFeeParams) && oneIn(t, 7, "hugeFee") {
 			pp.FeeRec = pick(t, []uint64{1<<63 - 1, 1 << 63, ^uint64(0)}, "hugeFeeV")
+			if p.HugeFeeParams {
+				pp.Denom = "atto" // the denomination in which the accounts could afford such a fee
+			}
 		} else if oneIn(t, 10, "hugePur") {
 			pp.FeePur = pick(t, hugeFees, "hugePurV")
 		}
@@ -673,6 +683,13 @@ func GenScenario(t *rapid.T, p *Profile) *Scenario {
 			if pct(t, p.PGovRaise, "govRaise") {
 				blk.Txs = append(blk.Txs, Tx{Ops: []Op{{Kind: EntWL, Actor: -1, Named: -1, Flag: true, N: uint64(uniRange(t, 0, 3, "govWLSigner")), Peer: nAcc + 3}}})
 				op = Op{Kind: EntRaise, Actor: -1, Named: -1, Rule: 9, Amt: genAmount(t, false, "govRaiseAmt")}
+				switch uni(t, 4, "govAsSigner") {
+				case 0:
+					// ... or the governance account presents itself as an enterprise signer (it is the modules' authority, not a signer)
+					op = Op{Kind: EntWL, Actor: -1, Named: -1, Rule: 9, Flag: true, Peer: uniRange(t, 0, nAcc+3, "govWLTarget")}
+				case 1:
+					op = Op{Kind: EntDecide, Actor: -1, Named: -1, Rule: 9, Flag: true, Ref: uniRange(t, 0, 5, "govDecideRef")}
+				}
 			}
 			if pct(t, p.PGovSendSwitch, "govSendSwitch") {
 				op = Op{Kind: BankSendEnabled, Actor: -1, Named: -1, Denom: pick(t, []int{0, 0, 1, 2}, "switchDenom"), Flag: oneIn(t, 4, "switchOn")}
